@@ -348,6 +348,8 @@ def pairing_harnesses(tier):
             for n in ((1, 3) if tier == "quick" else (1, 2, 3)):
                 for emb in ((False, True) if nctx else (False,)):
                     hs.append(pairing_harness(nctx, n, emb, method))
+        for nctx, n in ((1, 2), (2, 1), (2, 3)):
+            hs.append(conditional_base_harness(method, nctx, n))
     return hs
 
 
@@ -654,3 +656,73 @@ def flow_logprob_harnesses(tier):
                 if base == "ConditionalDiagonalNormal" and not wc: continue
                 hs.append(flow_logprob_harness(base, wc, emb))
     return hs
+
+
+# ------------------------------------------------------------------------------------------------------------------
+# C04 with a base distribution that uses the context: the base must be sampled / evaluated under the EMBEDDED context rows
+# ------------------------------------------------------------------------------------------------------------------
+class CondStubBase(Distribution):
+    def __init__(self):
+        super().__init__()
+        self.seen = []
+
+    def _log_prob(self, inputs, context):
+        self.seen.append(("log_prob", context))
+        pi = P(inputs)
+        out = np.empty((pi.shape[0],), dtype=object)
+        for b in range(pi.shape[0]):
+            a = rowargs(pi[b], P(context)[b])
+            out[b] = UF("CBASE", len(a))(*a)
+        return Sym.make(out, inputs.dtype)
+
+    def _sample(self, num_samples, context):
+        self.seen.append(("sample", context))
+        Cn = context.shape[0]
+        s = torch.randn(Cn * num_samples, Dn)
+        return s.reshape(Cn, num_samples, Dn)
+
+
+def conditional_base_harness(method, nctx, n):
+    def run(h, ctx):
+        base = CondStubBase()
+        flow = Flow(StubTransform(), base, embedding_net=StubEmbedding())
+        flow.eval()
+        c = h.inp("context", (nctx, 2))
+        h.c, h.base = c, base
+        return getattr(flow, method)(n, context=c)
+
+    def post(h, ctx, value):
+        er = embed_rows(h.c, True)
+        ok = bool(h.base.seen)
+        for kind, cx in h.base.seen:
+            pc = P(cx)
+            if kind == "sample":
+                ok = ok and tuple(pc.shape) == tuple(er.shape) and all(z3.eq(a, b) for a, b in zip(pc.reshape(-1), er.reshape(-1)))
+            else:
+                rep = np.repeat(er, n, axis=0)
+                ok = ok and tuple(pc.shape) == tuple(rep.shape) and all(z3.eq(a, b) for a, b in zip(pc.reshape(-1), rep.reshape(-1)))
+        ensure(h, ctx, "C04.base-distribution-sees-the-embedded-context-rows", z3.BoolVal(ok))
+        s = value[0] if isinstance(value, tuple) else value
+        ensure(h, ctx, "C18.sample-shape", z3.BoolVal(tuple(P(s).shape) == (nctx, n, Dn)))
+
+    def native_call(h, inp):
+        torch.manual_seed(0)
+        from nflows.transforms import MaskedAffineAutoregressiveTransform
+        emb = nn.Linear(2, 4)
+        fl = Flow(MaskedAffineAutoregressiveTransform(Dn, 4, context_features=4, num_blocks=1), DN.ConditionalDiagonalNormal([Dn]), embedding_net=emb).eval()
+        c = torch.tensor(np.asarray(inp["context"]), dtype=torch.float32)
+        seen = []
+        orig = fl._distribution._sample
+        fl._distribution._sample = lambda k, context: (seen.append(context), orig(k, context))[1]
+        out = getattr(fl, method)(n, context=c)
+        return out, seen, emb(c)
+
+    def native_clauses(h, inp, r):
+        out, seen, e = r
+        s = out[0] if isinstance(out, tuple) else out
+        return {"C04.base-distribution-sees-the-embedded-context-rows": all(cx.shape == e.shape and bool(torch.allclose(cx, e)) for cx in seen) and bool(seen),
+                "C18.sample-shape": tuple(s.shape) == (nctx, n, Dn)}
+    hn = Harness(f"flow_conditional_base[{method},ctx_rows={nctx},n={n}]", run, post, native_call=native_call, native_clauses=native_clauses,
+                 sample=lambda h, rng: {"context": rng.normal(size=(nctx, 2))}, functions=[Flow._sample, Flow.sample_and_log_prob])
+    hn.native_float32 = False
+    return hn
